@@ -71,9 +71,132 @@ def retry_budget(ob, tier):
     return dict(res, verdict="holds", queries=q.n, solver_s=round(q.secs, 2))
 
 
+def kawa_field_index(name):
+    import glob
+    ksrc = open(glob.glob("/root/.cargo/registry/src/*/kawa-0.6.8/src/storage/repr.rs")[0]).read()
+    kf = re.findall(r"^\s*pub (\w+):", re.search(r"pub struct Kawa<T: AsBuffer> \{(.*?)\n\}", ksrc, re.S).group(1), re.M)
+    return kf.index(name)
+
+
+def timeout_table(ob, tier):
+    """Mux::timeout — which proxy-generated answer a stream gets when a timeout fires, as a
+    function of the stream state and of `back.consumed` (has any response byte been relayed):
+    408 only for an Idle stream, 503 for (and for every) Link stream, 504 exactly when the
+    response has not started, forceful termination only once it has, never two answers for
+    one stream, unlink before answering.  First iteration of each per-stream loop (the loop
+    body is the same code for every stream; later iterations add nothing the first lacks)."""
+    fn = mirrun.get_fn("lib", "::timeout", sig="&mut Mux<Front, L>")
+    ex = engine.Executor(fn, loop_bound=lambda f, h: 1, max_nodes=200000)
+    ev = ex.run()
+    for i, e in enumerate(ev):
+        e.seq = i
+    q = Q(ex.ctx)
+    res = {"paths": ex.stats["nodes"], "functions": [fn.name]}
+    stream_f = struct_field_names("lib/src/protocol/mux/stream.rs", "Stream")
+    back_i, state_i = stream_f.index("back"), stream_f.index("state")
+    cons_i = kawa_field_index("consumed")
+    ssrc = open(mirrun.REPO + "/lib/src/protocol/mux/stream.rs").read()
+    states = re.findall(r"^\s*(\w+)(?:\(.*\))?,", re.sub(r"///.*", "", re.search(r"pub enum StreamState \{(.*?)\n\}", ssrc, re.S).group(1)), re.M)
+    if states[:3] != ["Idle", "Link", "Linked"]:
+        return dict(res, verdict="inconclusive", why="StreamState variants: %s" % states)
+    def is_stream_ref(m):
+        return m is not None and re.search(r"\bstream::Stream$", fn.locals.get(m.group(1), "")) is not None
+    cons = [v.term for k, v in ex.initial.items() if is_stream_ref(re.match(r"^\(\*(_\d+)\)\.%d\.%d$" % (back_i, cons_i), k)) and v.sort == "Bool"]
+    dsyms = [v.term for k, v in ex.initial.items() if is_stream_ref(re.match(r"^discr\(\(\*(_\d+)\)\.%d\)$" % state_i, k))]
+
+    def first_iter(e):
+        return e.kind == "call" and e.node[1] and all(i == 0 for _, i in e.node[1])
+    groups = {}
+    for e in ev:
+        if first_iter(e):
+            groups.setdefault(e.node[1][-1][0], []).append(e)
+    problems, wit = [], []
+
+    def status(e):
+        m = re.match(r"const (\d+)_u16", e.args[2]["text"]) if len(e.args) > 2 else None
+        return int(m.group(1)) if m else None
+    seen_status = set()
+    nb_groups = 0
+    for header, g in sorted(groups.items()):
+        ans = [e for e in g if re.search(r"(^|::)set_default_answer$", e.callee)]
+        frc = [e for e in g if re.search(r"(^|::)forcefully_terminate_answer$", e.callee)]
+        if not ans and not frc:
+            continue
+        nb_groups += 1
+        unl = [e for e in g if e.callee.endswith("::unlink_stream")]
+        idx = [e for e in g if re.search(r"Index<usize>>::index$", e.callee)]
+        is_front = any(status(e) == 408 for e in ans)
+        for e in ans:
+            st = status(e)
+            seen_status.add(st)
+            if st not in (408, 503, 504):
+                problems.append("a timeout answers with status %s" % st)
+            if st == 504:
+                if not any(q([e.guard, s])[0] == "unsat" for s in cons):
+                    problems.append("504 can be sent on a timeout without back.consumed being false (response already started, or the flag is not consulted)")
+                if not any(q([e.guard, engine.NOT(engine.OR(*[u.guard for u in unl if u.seq < e.seq]))])[0] == "unsat" for _ in [0]):
+                    problems.append("504 is sent without unlinking the stream from its backend first")
+            if is_front and dsyms:
+                wantd = {408: 0, 503: 1, 504: 2}.get(st)
+                if wantd is not None and not any(q([e.guard, engine.NOT("(= %s %s)" % (d, engine.bv(wantd, 64)))])[0] == "unsat" for d in dsyms):
+                    problems.append("%s is sent for a stream that is not %s" % (st, states[wantd]))
+            wit.append(q([e.guard])[0])
+        for e in frc:
+            if not any(q([e.guard, engine.NOT(s)])[0] == "unsat" for s in cons):
+                problems.append("a response is forcefully terminated on a timeout without back.consumed being true")
+            if q([e.guard, engine.NOT(engine.OR(*[u.guard for u in unl if u.seq < e.seq]))])[0] != "unsat":
+                problems.append("forceful termination without unlinking the stream first")
+            wit.append(q([e.guard])[0])
+        both = ans + frc
+        for i in range(len(both)):
+            for j in range(i + 1, len(both)):
+                if q([both[i].guard, both[j].guard])[0] != "unsat":
+                    problems.append("one stream can get two answers from one timeout")
+        if not idx:
+            problems.append("loop at %s: no stream lookup found" % header)
+            continue
+        it = idx[0].guard
+        if is_front and dsyms:
+            d = dsyms[0]
+            g503 = engine.OR(*[e.guard for e in ans if status(e) == 503]) if any(status(e) == 503 for e in ans) else "false"
+            if q([it, "(= %s %s)" % (d, engine.bv(1, 64)), engine.NOT(g503)])[0] != "unsat":
+                problems.append("a Link stream is not answered 503 on a frontend timeout")
+            g504 = engine.OR(*[e.guard for e in ans if status(e) == 504]) if any(status(e) == 504 for e in ans) else "false"
+            if not any(q([it, "(= %s %s)" % (d, engine.bv(2, 64)), engine.NOT(s), engine.NOT(g504)])[0] == "unsat" for s in cons):
+                problems.append("a Linked stream whose response has not started is not answered 504 on a frontend timeout")
+        else:
+            # backend arm: terminated / error => wait; otherwise exactly 504 (not started) or forceful termination
+            term = [e for e in g if e.callee.endswith("::is_terminated")]
+            err = [e for e in g if e.callee.endswith("::is_error")]
+            ends = [e for e in g if re.search(r"::end_stream(::<.*>)?$", e.callee)]
+            if len(term) != 1 or len(err) != 1 or len(ends) != 1:
+                problems.append("backend-timeout loop shape: is_terminated=%d is_error=%d end_stream=%d" % (len(term), len(err), len(ends)))
+                continue
+            T, E = term[0].result.term, err[0].result.term
+            some = engine.OR(*[e.guard for e in both])
+            if q([ends[0].guard, engine.NOT(T), engine.NOT(E), engine.NOT(some)])[0] != "unsat":
+                problems.append("a stream whose response is neither terminated nor in error gets no answer on a backend timeout")
+            if q([some, engine.OR(T, engine.AND(err[0].guard, E))])[0] != "unsat":
+                problems.append("a terminated / errored response is answered again on a backend timeout")
+            if q([it, engine.NOT(ends[0].guard)])[0] != "unsat":
+                problems.append("a stream linked to the timed-out backend is not ended")
+            g504 = engine.OR(*[e.guard for e in ans if status(e) == 504]) if ans else "false"
+            if not any(q([ends[0].guard, engine.NOT(T), engine.NOT(E), engine.NOT(s), engine.NOT(g504)])[0] == "unsat" for s in cons):
+                problems.append("a stream still waiting for its response is not answered 504 on a backend timeout")
+    if nb_groups != 2:
+        problems.append("expected a frontend and a backend per-stream loop with answers, found %d" % nb_groups)
+    res["witness"] = "answer sites reachable: %s; statuses %s; %d consumed reads" % (wit, sorted(x for x in seen_status if x), len(cons))
+    res["witness_ok"] = bool(wit) and all(x == "sat" for x in wit) and len(cons) >= 1
+    if problems:
+        return dict(res, verdict="counterexample", text="; ".join(sorted(set(problems))), model={"problems": problems}, queries=q.n, solver_s=q.secs, replay={"reproduced": False, "why": "no native replay"})
+    return dict(res, verdict="holds", queries=q.n, solver_s=round(q.secs, 2))
+
+
 def run(ob, tier):
     if ob.get("which") == "retry":
         return retry_budget(ob, tier)
+    if ob.get("which") == "timeout":
+        return timeout_table(ob, tier)
     return decision(ob, tier)
 
 
@@ -105,15 +228,24 @@ def decision(ob, tier):
             keep = v.term
         elif outer == "front":
             cons = (v.term, int(m.group(2)))
-    if keep is None or cons is None:
-        return dict(res, verdict="inconclusive", why="keep_alive_backend / front.consumed reads not found (%s)" % list(ex.initial))
+    # a flag the function never reads is a free symbol: the documented table then cannot be
+    # a function of what the code looked at, and the solver says so below
+    if keep is None:
+        keep = ex.ctx.sym("unread.context.keep_alive_backend", "Bool")
+        problems.append("the decision never reads stream.context.keep_alive_backend")
+    if cons is None:
+        problems.append("the decision never reads stream.front.consumed")
     # kawa::Kawa field #8 is `consumed` (external crate; checked against its source text)
     try:
         import glob
+        if cons is None:
+            raise LookupError
         ksrc = open(glob.glob("/root/.cargo/registry/src/*/kawa-0.6.8/src/storage/repr.rs")[0]).read()
         kf = re.findall(r"^\s*pub (\w+):", re.search(r"pub struct Kawa<T: AsBuffer> \{(.*?)\n\}", ksrc, re.S).group(1), re.M)
         if kf[cons[1]] != "consumed":
             problems.append("the request-side flag read is kawa.%s, not kawa.consumed" % kf[cons[1]])
+    except LookupError:
+        cons = (ex.ctx.sym("unread.front.consumed", "Bool"), -1)
     except Exception as e:  # pragma: no cover
         return dict(res, verdict="inconclusive", why="kawa source not readable: %s" % e)
     M, T, K, C = main[0].result.term, term[0].result.term, keep, cons[0]
